@@ -96,6 +96,12 @@ CLAIMED["C05"] = dict(
     note=TB_COMMON + "diff, solve/inv, simplify and _is_zero are contracts: the verified identity is assumed to hold for all t when SymPy says so (checked numerically per case). Order-4 inputs run in the thorough tier (minutes of SymPy time).",
     ref="DESIGN.md 4 C05")
 
+CLAIMED["C11"] = dict(
+    technique="Lean 4 theorems about a model of the detector (pre-order collection of negative powers, solve oracle, de-duplication, validity filter); recorded-oracle correspondence and a closed-form family of systems with known singular sets",
+    text="Proof (PARTIAL - detector logic): negBases_iff_sub (a base is collected iff Pow(base, negative) occurs in the entry: nothing overlooked, nothing else), dedup_no_loss, detect_sound (every reported condition was returned by solve for a denominator occurring in P - so it zeroes that denominator under the solve contract - and leaves A defined), detect_complete / detect_complete_rel (every equality found by solve, in either direction, under which a denominator vanishes while A stays defined is reported), detect_nodup. Tie: sympy.solve results and the validity-test answers are recorded from the real run and replayed through the model; the reported list (order included) is compared. Search: every reported condition is substituted back into P and A; forests of chains with symbolic decay constants (rate, time-constant and mixed forms, repeated constants) have their singular equalities known in closed form and are compared with what is reported.",
+    note=TB_COMMON + "NOT proved: that the negative powers of SymPy's simplified exp(A h) are exactly the true singular parameter sets (checked on the family only); sympy.solve and simplify are contracts.",
+    ref="DESIGN.md 4 C11")
+
 NOT_YET = {}
 
 def main():
